@@ -14,8 +14,8 @@ Import ListNotations.
 Local Open Scope N_scope.
 
 (* the main theorem: model run = specification run, every stack, every history *)
-Theorem C23_refines : forall ideal s0 ss0 ops, R s0 ss0 -> Forall op_wf ops ->
-  map erase (run ideal s0 ops) = spec_run ss0 ops.
+Theorem C23_refines : forall lsafe ideal s0 ss0 ops, R s0 ss0 -> Forall op_wf ops ->
+  map erase (run lsafe ideal s0 ops) = spec_run lsafe ss0 ops.
 Proof. exact run_refines. Qed.
 
 (* composition: each wrapper refines the specification when its parent does; empty bases do *)
@@ -62,6 +62,11 @@ Theorem C23_engine_iterate : forall e (m : kvmap) P S, keys_wf m -> wf_bytes (ob
   eng_iter e m P S = kv_iterate m (ob P) (ob S).
 Proof. exact eng_iter_spec. Qed.
 
+(* the (repaired) range glue never writes into the caller's prefix buffer *)
+Theorem C23_range_keeps_caller_buffer : forall prefix start,
+  caller_buffer_after_range prefix start = g_arr prefix.
+Proof. exact range_keeps_caller_buffer. Qed.
+
 (* batch replay order = insertion order, in the caller's own keys, through any wrappers *)
 Theorem C23_replay_order : forall s l, st_breplay s (map (st_bop s) l) = l.
 Proof. exact st_breplay_bop. Qed.
@@ -69,14 +74,14 @@ Proof. exact st_breplay_bop. Qed.
 (* non-vacuity *)
 Example C23_ex_stack :
   R (Syn (Tab [255] (Flu [] (Eng EPbl [])))) (SSyn (STab [255] (SFlu [] (SEng [])))) /\
-  run 10 (Syn (Tab [255] (Flu [] (Mem []))))
+  run false 10 (Syn (Tab [255] (Flu [] (Mem []))))
       [OPut h0 [1] []; OPut {| h_d := 2; h_path := [] |} [255; 2] [7]; OFlush 2;
        OIter h0 None None; OGet h0 [1]; OGet h0 [3]; OGet {| h_d := 3; h_path := [] |} [255; 1]]
   = [BIter [([1], []); ([2], [7])]; BGet (Some []); BGet None; BGet (Some [])].
 Proof. split; [cbn; repeat split; constructor | vm_compute; reflexivity]. Qed.
 Example C23_ex_ranges :
   ldb_range (Some [255; 255]) (Some [1]) = (Some [255; 255; 1], None) /\
-  ldb_range None None = (None, None) /\
+  ldb_range None None = (None, None) /\ ldb_range (Some []) None = (None, None) /\
   pbl_range None None = None /\ pbl_range None (Some [1]) = Some (Some [1], None) /\
   pbl_range (Some [0; 255]) None = Some (Some [0; 255], Some [1]).
 Proof. repeat split. Qed.
@@ -97,4 +102,5 @@ Print Assumptions C23_pbl_range.
 Print Assumptions C23_ldb_next_loop.
 Print Assumptions C23_pbl_first_then_next.
 Print Assumptions C23_engine_iterate.
+Print Assumptions C23_range_keeps_caller_buffer.
 Print Assumptions C23_replay_order.
